@@ -65,6 +65,7 @@ type MapObj struct {
 	snap    bool
 	dirty   bool
 	saved   []MapEntry
+	frozen  bool
 }
 
 func (p Ptr) IsNil() bool { return p.obj == nil }
